@@ -889,14 +889,17 @@ Section Eval.
                                    match obj_id im with
                                    | None =>            (* an object that is not part of the copy *)
                                        u <- eval f upd (Some (strip_ids item)) tenv ;;
-                                       match u with
-                                       | None | Some (VObj _) => ret tt
-                                       | Some _ => fail (EEval ErrIllegalUpdate)
-                                       end ;;;
+                                       item1 <-
+                                         match u with
+                                         | None => ret item
+                                         | Some (VObj um) =>   (* the stray object is updated in place: the delete list sees it *)
+                                             ret (VObj (fold_left (fun d kv => obj_insert (fst kv) (snd kv) d) um im))
+                                         | Some _ => fail (EEval ErrIllegalUpdate)
+                                         end ;;
                                        match del with
                                        | None => ret tree
                                        | Some dn =>
-                                           d <- eval f dn (Some (strip_ids item)) tenv ;;
+                                           d <- eval f dn (Some (strip_ids item1)) tenv ;;
                                            if all_strings (arrayify d) then ret tree
                                            else fail (EEval ErrIllegalDelete)
                                        end
